@@ -105,7 +105,7 @@ ImConcat(g, f, n) ==
         THEN ImFilePreds(g, f, LAMBDA x : ImResolve(g, f, x)) ELSE <<>>)
        \o ImConcat(g, f + 1, n)
 
-ImFlatten(g) == [preds |-> ImConcat(g, 1, ImN(g)), rec |-> <<>>]
+ImFlatten(g) == [preds |-> ImConcat(g, 1, ImN(g)), rec |-> <<>>, makes |-> <<>>]
 
 (* main's observed predicate: M unions main's own Helper with everything  *)
 (* imported, so any collision of a Helper shows in its rows                *)
